@@ -278,6 +278,15 @@ func init() {
 					// a burst of first-time tunnels to different hosts of the same kind
 					emit("ce", "burst", []string{"dns", "ip"}[r.Intn(2)], strconv.Itoa(4+r.Intn(12)), strconv.Itoa(t%250))
 				}
+				if r.Chance(35) {
+					// renewal of an IP-literal target: issue, let it expire, ask again - the replacement must name the IP again
+					ipt := []string{"10.9.8.7:443", "[2001:db8::77]:8443", "127.0.0.1:8443", "192.0.2.200:443"}[r.Intn(4)]
+					iph, _, _ := net.SplitHostPort(ipt)
+					emit("ce", "get", hx(ipt), "1")
+					emit("ce", "expire", hx(iph))
+					emit("ce", "get", hx(ipt), "1")
+					emit("ce", "get", hx(ipt), "1")
+				}
 				used := []string{}
 				for i := 0; i < 4+r.Intn(8); i++ {
 					switch x := r.Intn(100); {
